@@ -152,8 +152,16 @@ func (s *sharedEntryAttributes) toXmlInternal(parent *etree.Element, onlyNewOrUp
 			// So create the element that the tree entry represents
 			newElem := etree.NewElement(s.PathName())
 
-			// Apply sorting of childs
-			keys := s.childs.GetKeys()
+			// Apply sorting of childs. Childs of inactive choice cases are not
+			// part of the config, unless they are to be deleted from the device.
+			activeChilds := s.filterActiveChoiceCaseChilds()
+			keys := make([]string, 0, s.childs.Length())
+			for k, child := range s.childs.GetAll() {
+				if _, active := activeChilds[k]; !active && !child.shouldDelete() {
+					continue
+				}
+				keys = append(keys, k)
+			}
 			if s.parent == nil {
 				slices.Sort(keys)
 			} else {
